@@ -3,6 +3,7 @@ package converters
 import (
 	"bufio"
 	"encoding/binary"
+	"errors"
 	"fmt"
 	"io"
 	"log"
@@ -253,10 +254,16 @@ func NewCacheFile(cachePath string) (*cacheFile, error) {
 	}
 
 	// Read all stream ids
+	tornTail := false
 	for {
 		streamSection := converterStreamSection{}
 		if err := binary.Read(buffer, binary.LittleEndian, &streamSection); err != nil {
 			if err == io.EOF {
+				break
+			}
+			if errors.Is(err, io.ErrUnexpectedEOF) {
+				// the last record was only partly written, ignore it
+				tornTail = true
 				break
 			}
 			return nil, fmt.Errorf("failed to read stream header: %w", err)
@@ -265,6 +272,12 @@ func NewCacheFile(cachePath string) (*cacheFile, error) {
 
 		streamSize, err := skipStream(buffer)
 		if err != nil {
+			if errors.Is(err, io.EOF) || errors.Is(err, io.ErrUnexpectedEOF) {
+				// the last record was only partly written, ignore it
+				res.fileSize -= streamHeaderSize
+				tornTail = true
+				break
+			}
 			return nil, fmt.Errorf("failed to skip stream data: %w", err)
 		}
 
@@ -279,6 +292,11 @@ func NewCacheFile(cachePath string) (*cacheFile, error) {
 			size:   uint64(streamSize),
 		}
 		res.fileSize += int64(streamSize)
+	}
+	if tornTail {
+		if err := file.Truncate(res.fileSize); err != nil {
+			return nil, fmt.Errorf("failed to drop partly written record: %w", err)
+		}
 	}
 	if res.freeSize == 0 {
 		res.freeStart = res.fileSize
